@@ -70,7 +70,7 @@ def line_limit(size, n=1):
 def probe(ctx, g, f, S, U, q_expected, where, auto=False):
     size = f.size
     lim = line_limit(size)
-    for h in U:
+    for h in ctx.alternating(U):
         ctx.counters["oracle_evaluations"] += 1
         got = g(lim, f.check_alt, h)
         if got != (h in S):
